@@ -375,6 +375,8 @@ func extractMain(args []string) {
 					fmt.Fprintf(&lean, "def %s : List String := [\"<missing>\"]\n", id)
 				case "args":
 					fmt.Fprintf(&lean, "def %s : List (String × List String) := [(\"<missing>\", [])]\n", id)
+				case "litcover":
+					fmt.Fprintf(&lean, "def %s : List (String × Bool) := [(\"<missing>\", false)]\n", id)
 				case "walk":
 					fmt.Fprintf(&lean, "def %s : List (String × String) := [(\"start\", \"<missing>\")]\n", id)
 				case "switch", "casebody":
@@ -418,6 +420,14 @@ func extractMain(args []string) {
 				}
 				fmt.Fprintf(&lean, "def %s : List (List String × String) := [%s]\n", id, strings.Join(rows, ", "))
 				facts[id] = bodies
+			case "litcover":
+				v := litcoverFact(fd, pi)
+				var rows []string
+				for _, r := range v {
+					rows = append(rows, fmt.Sprintf("(%s, %v)", leanString(r.Lit), r.Covered))
+				}
+				fmt.Fprintf(&lean, "def %s : List (String × Bool) := [%s]\n", id, strings.Join(rows, ", "))
+				facts[id] = v
 			case "walk":
 				v := walkFact(fset, fd, pi)
 				var rows []string
